@@ -377,6 +377,25 @@ def chains_case(p, res):
             res.ev(1, nontrivial=1, transitions=4)
             if not (torch.equal(y1, y2) and torch.equal(y1, y3) and torch.equal(y1, y4)):
                 res.viol("composite", "+".join(names), "composite=sequential", f"CompositeConstraint({names}) differs from sequential application / apply_constraint_chain / combine_constraints")
+    # long chains (4 .. 24 stages of non-commuting parts) built by the constructor, grown stage by stage with add_constraint, and half-and-half
+    cyc = [("total1.3", lambda: KC.TotalPowerConstraint(1.3)), ("papr2", lambda: KC.PAPRConstraint(2.0)), ("avg0.7", lambda: KC.AveragePowerConstraint(0.7)), ("peak0.9", lambda: KC.PeakAmplitudeConstraint(0.9)),
+           ("avg2.2", lambda: KC.AveragePowerConstraint(2.2)), ("peak1.1", lambda: KC.PeakAmplitudeConstraint(1.1)), ("total0.4", lambda: KC.TotalPowerConstraint(0.4))]
+    for n_st in (4, 9, 10, 11, 12, 13, 16, 24):
+        cs = [cyc[(2 * i + i // 7) % len(cyc)][1]() for i in range(n_st)]
+        y2 = X
+        for c in cs:
+            y2 = c(y2)
+        grown = KC.CompositeConstraint([cs[0]])
+        for c in cs[1:]:
+            grown.add_constraint(c)
+        half = KC.CompositeConstraint(cs[:n_st // 2])
+        for c in cs[n_st // 2:]:
+            half.add_constraint(c)
+        for how, comp in (("constructor", KC.CompositeConstraint(cs)), ("add_constraint", grown), ("constructor+add_constraint", half)):
+            res.ev(1, nontrivial=1, transitions=n_st)
+            yc = comp(X)
+            if not torch.equal(yc, y2) or len(comp.constraints) != n_st:
+                res.viol("composite", f"{n_st} stages,{how}", "composite=sequential", f"a composite of {n_st} stages built by {how} holds {len(comp.constraints)} stages and {'differs from' if not torch.equal(yc, y2) else 'equals'} sequential application")
     # the same constraint OBJECT used at two positions of a chain (a module registered twice): both applications must happen
     for a in range(len(pool)):
         for b in range(len(pool)):
